@@ -96,7 +96,39 @@ const TAIL_SNIPPETS: &[Snippet] = &[
     Snippet { text: "typedef double X{j}e;\ntypedef struct { int k; } X{j}p;\nvoid X{j}f(X{j}e first, ...);\nextern X{j}e (*X{j}g)(X{j}p *, int);\n", items: &[("X{j}e", 't', &[]), ("X{j}p", 't', &[]), ("X{j}f", 'f', &["X{j}e"]), ("X{j}g", 'v', &["X{j}e", "X{j}p"])] },
     Snippet { text: "typedef int X{j}e;\nstruct X{j}s { const volatile X{j}e e; X{j}e (*cb)(const X{j}e *); };\nextern const struct X{j}s X{j}g[2];\n", items: &[("X{j}e", 't', &[]), ("X{j}s", 't', &["X{j}e"]), ("X{j}g", 'v', &["X{j}s"])] },
     Snippet { text: "typedef float X{j}e;\nstruct X{j}s { _Complex float c; X{j}e r; };\ntypedef struct X{j}s X{j}t;\nX{j}t *X{j}f(X{j}t);\n", items: &[("X{j}e", 't', &[]), ("X{j}s", 't', &["X{j}e"]), ("X{j}t", 't', &["X{j}s"]), ("X{j}f", 'f', &["X{j}t"])] },
+    // constants with an evaluated initialiser still need their declared type
+    Snippet { text: "typedef unsigned short X{j}e;\nstatic const X{j}e X{j}g = 8080;\n", items: &[("X{j}e", 't', &[]), ("X{j}g", 'v', &["X{j}e"])] },
+    Snippet { text: "enum X{j}n { X{j}n_A, X{j}n_B };\nstatic const enum X{j}n X{j}h = X{j}n_B;\n", items: &[("X{j}n", 't', &[]), ("X{j}h", 'v', &["X{j}n"])] },
+    Snippet { text: "typedef double X{j}d;\nstatic const X{j}d X{j}k = 1.5;\ntypedef signed char X{j}c;\nstatic const X{j}c X{j}m = -3;\n", items: &[("X{j}d", 't', &[]), ("X{j}k", 'v', &["X{j}d"]), ("X{j}c", 't', &[]), ("X{j}m", 'v', &["X{j}c"])] },
+    Snippet { text: "typedef int X{j}e;\nstatic const X{j}e X{j}arr[2] = {1, 2};\ntypedef X{j}e X{j}e2;\nstatic const X{j}e2 X{j}q = 7;\n", items: &[("X{j}e", 't', &[]), ("X{j}arr", 'v', &["X{j}e"]), ("X{j}e2", 't', &["X{j}e"]), ("X{j}q", 'v', &["X{j}e2"])] },
 ];
+
+/// Every item of every snippet as the only root, on an otherwise empty header, with the
+/// kind-specific flag and with `--allowlist-item`, recursively and not.
+fn snippet_grid() -> Vec<Case> {
+    let mut v = vec![];
+    for (s, sn) in TAIL_SNIPPETS.iter().enumerate() {
+        let n = sn.items.len();
+        for i in 0..n {
+            for as_item in [false, true] {
+                for no_recursive in [false, true] {
+                    let pick = (((i << 16) + (1 << 15)) / n) as u16;
+                    v.push(Case {
+                        prog: Program { decls: vec![] },
+                        roots: vec![Root { pick, other: pick, form: Form::Literal, as_item }],
+                        blocklist: vec![],
+                        no_recursive,
+                        by_file: None,
+                        flags: vec![],
+                        keep_known: false,
+                        tail: vec![s as u8],
+                    });
+                }
+            }
+        }
+    }
+    v
+}
 
 fn tern(mut i: usize) -> String {
     if i == 0 {
@@ -262,6 +294,9 @@ impl Property for C09 {
     }
     fn generated(&self, tier: Tier) -> usize {
         tier.pick(1500, 30000)
+    }
+    fn fixed_cases(&self, _tier: Tier) -> Vec<Case> {
+        snippet_grid()
     }
     fn shrink_steps(&self) -> usize {
         80
